@@ -216,7 +216,8 @@ def main(argv=None):
                     tot = {"samples": 0, "agree": 0, "open": 0, "mismatch": 0, "functions": len(cc)}
                     for fname, st in cc.items():
                         if "error" in st:
-                            faults.append(f"engine cross-check of {fname} could not run: {st['error']}")
+                            # the function left the executor's subset: nothing to compare (its obligations are undecided too)
+                            tot.setdefault("not_compared", []).append(f"{fname}: {st['error'][:120]}")
                             continue
                         for kk in ("samples", "agree", "open"):
                             tot[kk] += st[kk]
@@ -266,7 +267,8 @@ def main(argv=None):
     if faults:
         for f in faults[:5]:
             print("CHECKER-FAULT:", f, file=sys.stderr)
-        return 3
+        if not violations:
+            return 3          # (with violations reported, the verdict is the violation: exit 1 below)
     n_eval = sum(r["evaluations"] for r in bounded.values())
     n_ob = proof["obligations"] if proof else 0
     if n_eval == 0 and n_ob == 0:
